@@ -95,3 +95,9 @@ Definition nf_violations (lang : string) (ss : schemas) : list string :=
    chk (is ["go"]) (go_unprefixed_member ss) "go-enum-member-not-prefixed";
    chk (is ["typescript"; "python"]) (numeric_member ss) "numeric-enum-member";
    chk (is ["php"]) (php_unsanitised_member ss) "php-enum-member-not-sanitised"].
+
+(* diagnosis: which object carries which violation *)
+Definition nf_offenders (lang : string) (ss : schemas) : list (string * string * string) :=
+  flat_map (fun s => flat_map (fun ko =>
+     map (fun v => (s_pkg s, o_name (snd ko), v))
+         (nf_violations lang [mkSchema (s_pkg s) (s_meta s) "" ty_zero [ko]])) (s_objects s)) ss.
